@@ -39,6 +39,28 @@ CORE = [
 ]
 
 
+def counted_scenario(rng):
+    """join-all is already waiting for several participants when one that counted itself in by hand leaves, before / after /
+    between the managed threads it also waits for (every order of the departures, by sleeps on the virtual clock)"""
+    nm = rng.randint(1, 3)
+    lines = []
+    sleeps = rng.sample([0, 1, 2, 3, 5, 8, 13, 20], nm + 1)
+    for i in range(1, nm + 1):
+        ops = ["Z%d" % sleeps[i]] if sleeps[i] else []
+        if rng.random() < 0.3:
+            ops.insert(rng.randrange(len(ops) + 1), "A")
+        lines.append(("THREAD %d M %s" % (i, " ".join(ops))).rstrip())
+    j = nm + 1
+    inner = ["Z%d" % sleeps[0]] if sleeps[0] else ["P"]
+    lines.append("THREAD %d J C+ %s C-%s" % (j, " ".join(inner), rng.choice(["", " A", " P"])))
+    launches = ["L%d" % i for i in range(1, nm + 1)] + ["L%d" % j]
+    rng.shuffle(launches)
+    # join-all starts once the counted thread is certainly in (a short sleep on the main thread would need an op; a schedule
+    # point is what there is), and the joinable thread is joined afterwards
+    lines.append("MAIN %s P JA J%d" % (" ".join(launches), j))
+    return lines
+
+
 def random_scenario(rng):
     n = rng.randint(1, 6)
     kinds = {}
@@ -126,6 +148,8 @@ def run(ctx):
         sc = random_scenario(rng)
         pol = rng.choice(["pct %d 2 80", "pct %d 3 120", "rand %d", "pct %d 1 60"]) % rng.randrange(1, 10 ** 6)
         blocks.append((pol, sc))
+    for _ in range(40 if not thorough else 800):
+        blocks.append((rng.choice(["pct %d 2 80", "rand %d", "pct %d 3 120"]) % rng.randrange(1, 10 ** 6), counted_scenario(rng)))
     for pol, sc in blocks:
         ctx.distinct.add(hash(pol + "|" + "\n".join(sc)))
     ctx.add_sample({"policy": blocks[0][0], "scenario": blocks[3][1]})
